@@ -1,13 +1,149 @@
 package crashrig
 
-// Confidential (UTXO) transactions: the seam is here; the generator is wired
-// in when verif/sim/txgen offers UTXO transactions over the xcrypto model.
+import (
+	"encoding/hex"
+	"fmt"
 
-// utxoRef is the reference of the UTXO stores after a height of the main line.
-type utxoRef struct{}
+	"github.com/lianxiangcloud/linkchain/libs/common"
+	lktypes "github.com/lianxiangcloud/linkchain/libs/cryptonote/types"
+	"github.com/lianxiangcloud/linkchain/libs/log"
+	"github.com/lianxiangcloud/linkchain/libs/ser"
+	"github.com/lianxiangcloud/linkchain/types"
+	"github.com/lianxiangcloud/linkchain/utxo"
 
-func takeUtxoRef(n *node, r *crashRun, h uint64) *utxoRef { return nil }
+	"verif/sim/simdb"
+	"verif/sim/simnode"
+	"verif/sim/txgen"
+)
 
+// utxoRef is the reference of the confidential stores after a height: the
+// output index (per token: number of outputs and each stored output) and the
+// set of spent key images.
+type utxoRef struct {
+	tokens  []common.Address
+	count   map[common.Address]int64    // outputs in the index (GetMaxUtxoOutputSeq + 1)
+	outputs map[common.Address][]string // digest of output i
+	spent   []lktypes.Key               // key images of all blocks <= this height
+	own     []lktypes.Key               // key images of this height's block
+}
+
+func outputDigest(o *types.UTXOOutputData) string {
+	bz, err := ser.EncodeToBytes(o)
+	if err != nil {
+		return "unencodable: " + err.Error()
+	}
+	return hex.EncodeToString(bz)
+}
+
+func durableUtxoStore(disk *simdb.Disk) *utxo.UtxoStore {
+	u := utxo.NewUtxoStore(disk.DB(simnode.DBUtxo), disk.DB(simnode.DBUtxoOutput), disk.DB(simnode.DBUtxoOutputTok))
+	u.SetLogger(log.NewNopLogger())
+	return u
+}
+
+// takeUtxoRef reads the reference from a node that has fully committed h. The
+// number of outputs per token is the reference ledger's (txgen), the stored
+// outputs are what the uncrashed execution wrote.
+func takeUtxoRef(n *node, r *crashRun, h uint64, blk *types.Block) *utxoRef {
+	ref := &utxoRef{count: map[common.Address]int64{}, outputs: map[common.Address][]string{}}
+	if prev := r.ref[h-1]; prev != nil && prev.utxo != nil {
+		ref.spent = append(ref.spent, prev.utxo.spent...)
+	}
+	for _, tx := range blk.Data.Txs {
+		if ut, ok := tx.(*types.UTXOTransaction); ok {
+			for _, ki := range ut.GetInputKeyImages() {
+				ref.own = append(ref.own, *ki)
+			}
+		}
+	}
+	ref.spent = append(ref.spent, ref.own...)
+	store := durableUtxoStore(n.disk)
+	for _, tok := range r.w.txg.L.Tokens() {
+		cnt := store.GetMaxUtxoOutputSeq(tok) + 1
+		if cnt <= 0 {
+			continue
+		}
+		ref.tokens = append(ref.tokens, tok)
+		ref.count[tok] = cnt
+		for i := int64(0); i < cnt; i++ {
+			o, err := store.GetUtxoOutput(tok, uint64(i))
+			if err != nil || o == nil {
+				ref.outputs[tok] = append(ref.outputs[tok], fmt.Sprintf("unreadable: %v", err))
+				continue
+			}
+			ref.outputs[tok] = append(ref.outputs[tok], outputDigest(o))
+		}
+	}
+	return ref
+}
+
+// modelOutputs is the number of hidden outputs of a token the reference
+// ledger knows.
+func modelOutputs(g *txgen.Gen, tok common.Address) int64 { return int64(len(g.L.Hidden[tok])) }
+
+// checkUtxo: spent-key-image set and output index describe height H.
 func (r *crashRun) checkUtxo(n *node, sc *scenario, z *zRef, H uint64, phase string) bool {
+	h := sc.h
+	refH := H
+	if refH > h {
+		refH = h
+	}
+	ref := r.refOf(refH, z)
+	if ref == nil || ref.utxo == nil {
+		return true
+	}
+	u := ref.utxo
+	views := []struct {
+		name  string
+		store *utxo.UtxoStore
+	}{{"utxo store reopened from disk", durableUtxoStore(n.disk)}, {"live utxo store", n.chain.UtxoStore}}
+	// tokens that have outputs at the crashed height but none at H
+	tokens := append([]common.Address(nil), u.tokens...)
+	if z.ref.utxo != nil {
+		for _, t := range z.ref.utxo.tokens {
+			if _, ok := u.count[t]; !ok {
+				tokens = append(tokens, t)
+			}
+		}
+	}
+	for _, v := range views {
+		for _, tok := range tokens {
+			want := u.count[tok]
+			got := v.store.GetMaxUtxoOutputSeq(tok) + 1
+			if got != want {
+				if r.violate(sc, "utxo-index", "%s: %s holds %d outputs of token %s at store height %d, the chain up to that height created %d", phase, v.name, got, tok.Hex(), H, want) {
+					return false
+				}
+				break
+			}
+			for i := int64(0); i < want; i++ {
+				o, err := v.store.GetUtxoOutput(tok, uint64(i))
+				if err != nil || o == nil || outputDigest(o) != u.outputs[tok][i] {
+					if r.violate(sc, "utxo-output", "%s: %s: output %d of token %s is missing or differs (err=%v)", phase, v.name, i, tok.Hex(), err) {
+						return false
+					}
+					break
+				}
+			}
+		}
+		for i := range u.spent {
+			if !v.store.HaveTxKeyimgAsSpent(&u.spent[i]) {
+				if r.violate(sc, "key-image-lost", "%s: %s: a key image spent by a block <= %d is not marked spent (the hidden output can be spent again)", phase, v.name, H) {
+					return false
+				}
+				break
+			}
+		}
+		if H == h-1 && z.ref.utxo != nil {
+			for i := range z.ref.utxo.own {
+				if v.store.HaveTxKeyimgAsSpent(&z.ref.utxo.own[i]) {
+					if r.violate(sc, "key-image-ahead", "%s: %s: a key image of block %d is marked spent while the block store is at %d", phase, v.name, h, H) {
+						return false
+					}
+					break
+				}
+			}
+		}
+	}
 	return true
 }
